@@ -190,6 +190,7 @@ func runC19(c *Ctx) {
 	c19EveryCaseTried(c)
 	c19AlternativesKept(c)
 	c19R5(c)
+	c.shared("R7", "C08/R1", "the bindings of a case are visible in that case's body and end with it: every match evaluation pushes a frame of its own and pops it again (a push always makes a frame, a pop always removes one)", keyHas("pop-primitive", "push-", "balance "), func(s *Ctx) { c08R1(s, discoverFrameModel(s.P)) })
 	c.shared("R6", "C15/R6", "a literal pattern matches when subject == literal: the matcher's equality verdict excludes unset operands like the == operator does", func(o Obligation) bool { return !strings.Contains(o.Key, "getArrayPrototype") }, func(s *Ctx) { equalityAgreement(s, "R6") })
 
 	// R2/R3 in the match arm of evalExpr
@@ -737,6 +738,41 @@ func c19EveryCaseTried(c *Ctx) {
 	}
 	if n == 0 {
 		c.undecided("R2", "every-case-is-tried", p.Pos(ee.Pos()), "no call of the pattern matcher inside a loop over ExprMatch.Cases found")
+	}
+	// the cases are consulted for every subject: once the subject has been evaluated, no successful
+	// return is reached without entering the loop over the cases (an identifier pattern matches
+	// anything, an unset or null subject included)
+	m := 0
+	ek := EKOf(p)
+	for _, fn := range p.privateCluster(ee) {
+		loops := rangeLoops(fn, func(v ssa.Value) bool {
+			sf, ok := loadedField(v)
+			return ok && sf.Is("ExprMatch", "Cases")
+		})
+		if len(loops) != 1 {
+			continue
+		}
+		for _, call := range callsIn(fn) {
+			cv, ok := call.(*ssa.Call)
+			if !ok || !staticCalleeIs(cv, "(*lang.Evaluator).evalExpr") || argDesc(cv) != "ExprMatch.Value" {
+				continue
+			}
+			m++
+			bad := ""
+			for _, r := range returnsOf(fn) {
+				res := effectiveResults(r)
+				if len(res) == 0 || !ek.KindsAt(res[len(res)-1], FactsOf(fn).At(r.Block())).Has(KNil) {
+					continue
+				}
+				if r.Block() != cv.Block() && canSkip(cv.Block(), loops[0].Header, r.Block()) {
+					bad = p.InstrPos(r)
+				}
+			}
+			c.check(bad == "", "R2", "cases-consulted-for-every-subject", p.InstrPos(cv), "after the subject, every successful return passes the loop over the cases", "after the subject was evaluated the match can return successfully (at "+bad+") without consulting any case: for that kind of subject a catch-all case `x => ...` is never taken")
+		}
+	}
+	if m == 0 {
+		c.undecided("R2", "cases-consulted-for-every-subject", p.Pos(ee.Pos()), "the evaluation of ExprMatch.Value next to a loop over the cases was not found")
 	}
 }
 
